@@ -15,15 +15,20 @@ out = [MARK, '',
        'Independent sub-agents (Agent tool) each received the text of ONE property and a private scratch',
        'worktree of /repo under /tmp/seed/, nothing from /verif, and were asked for a realistic change that',
        'breaks the property, still passes the 65 tests, and needs something specific to manifest, plus a',
-       'demonstration program.  Round 1 agents got only that.  Round 2/3 agents were ADDITIONALLY given a',
-       'prose description of the harness\'s small scopes and asked to evade them (this goes beyond "only the',
-       'property text" on purpose: it produces changes aimed at what the checks could not yet see; the',
-       'meta.json of each such change says so).  `tools/seedcheck.py` confirmed every change in a scratch',
+       'demonstration program.  Round 1 agents got only that.  From round 2 on the agents were ADDITIONALLY',
+       'given a prose description of what the check explores (rounds 2-5: written by hand; rounds 6-8: a file',
+       'HARNESS.txt holding the rule text and scope list of the check\'s own evidence file, the mechanisms of',
+       'the seeded changes already caught for that property and, in rounds 7-8, the list of dimensions the',
+       'whole harness already varies) and were asked to evade it.  This goes beyond "only the property text"',
+       'on purpose: it produces changes aimed at what the checks could not yet see; the meta.json of each such',
+       'change says what its author was told.  `tools/seedcheck.py` confirmed every change in a scratch',
        'worktree of /repo HEAD (demo passes unchanged, patch applies, 65/65 tests pass with it, demo fails',
        'with it) before storing it under `seeded/<name>/`, and ran the quick tier of the listed checks with',
        '`VERIF_REPO` on the patched worktree (equivalent, for pure Python, to applying the patch in /repo and',
-       'reverting it; /repo itself was never modified by a seeded change).  The scratch worktrees were',
-       'removed afterwards.', '',
+       'reverting it; /repo itself was never modified by a seeded change).  Where a row says a change was',
+       'missed "as committed", `tools/committed_vs_seed.sh` ran the check from a scratch worktree of /verif',
+       'HEAD against the patched tree before the extension was written.  The scratch worktrees were removed',
+       'afterwards.  `tools/reseed.sh` re-runs every stored change against the check of its property.', '',
        '| seeded change | round | aimed at | caught by (quick tier, wall) | not caught by | what it needs / history |',
        '|---|---|---|---|---|---|']
 for r in rows:
